@@ -1,8 +1,19 @@
 """C05 configuration for bin/check and bin/mkmanifest.py."""
 CFG = {
-   "ready": False,
-   "level_text": "TODO",
-   "level_note": "TODO",
-   "technique": "TODO",
-   "notes": [],
+   "ready": True,
+   "level_text": "Proof for the demuxer (mux/demux.go + mux/chunk.go, the entry point of mux.NewDemuxer and of the whole animation package): for every byte string the model of the current code neither panics nor exhausts its fuel (every loop iteration consumes >= 8 input bytes), Frame(i)/GetChunk(id) are total for every index/id, and a successful result holds only sub-slices of the input, 1..maxFrames frames with non-negative offsets and metadata <= maxMetadataSize (Coq theorem C05_demux_total_and_well_formed, by invariants over the chunk loops); the pinned code is proved to panic on a 16-byte witness (C05_demux_panics_refuted, fixed by 078db33) and the fix is proved conservative. The model is tied to the code on every run by extraction + differential execution on 10 000 malformed inputs (outcome class and every accessor). For the codec loops (VP8/VP8L/ALPH decoders, compositing) the check is a TEST: the same malformed inputs through all 8 entry points under recover(), a wall-clock cap and buffer/bounds checks.",
+   "level_note": "Trusted: Coq kernel, extraction (ExtrOcamlBasic), OCaml glue, Go harness, translator. Not proved: anything about internal/container.Parser (other builder), the VP8/VP8L/ALPH decoders and animation compositing on malformed input (covered by the malformed-stream run only), memory use (inputs declaring > 2^24 pixels skip the pixel-decoding entry points).",
+   "technique": "Rocq proof of totality / in-bounds results of the demuxer model by loop invariants with explicit Panic outcome and fuel; extraction-based correspondence on malformed streams; malformed-stream test of all decoding entry points",
+   "notes": [
+     "theorems: C05_demux_total_and_well_formed (full, current code), C05_demux_total, C05_demux_fuel_sufficient, C05_frame_total, C05_frame_ok_iff_in_range, C05_get_chunk_total, C05_get_chunk_in_bounds, C05_patch_is_conservative (full); C05_demux_panics_refuted (pinned code, witness RIFF 02000000 WEBP 'VP8 ')",
+     "correspondence: mux.NewDemuxer + GetFeatures/NumFrames/Frame(-1..n)/GetChunk(10 ids)/LoopCount/BackgroundColor/internal chunk list vs extracted DemuxModel.parse true, on every generated input",
+     "generator: random bytes; RIFF header + random; bit flips; byte flips; RIFF-size edits; chunk-size edits (0,1,3,4,7,8,2^31,2^32-1,len,+-1); truncations; chunk drop/duplicate/retag; splices; header-field edits; verbatim seeds — over lossy, lossless, lossy+alpha, lossless+alpha, VP8X+metadata and animated (2..5 frames, alpha frames) files",
+     "entry points run on every input: webp.GetFeatures, DecodeConfig, Decode, image.Decode, mux.NewDemuxer(+Frame, GetChunk, iterator), animation.DecodeBytes, DecodeFrames+NewAnimDecoder+NextFrame to the end, DecodeFramesParallel",
+   ],
+   "partial": [
+     "C05 as stated covers Decode/DecodeConfig/GetFeatures/image.Decode and the codec loops; for those nothing is proved here (no model of container.Parser or of the decoders in this area): they are exercised by the malformed-stream run only (a test).",
+     "time/memory proportionality is not proved; the wall-clock cap (20 s per call) and the skip of declared areas > 2^24 pixels are test-side guards.",
+   ],
+   "trusted_base": ["modelled, not verified: mux/demux.go parse/parseSimpleVP8/parseSimpleVP8L/parseExtended/parseANIM/parseANMF/parseSingleExtendedFrame/Frame/GetChunk, mux/chunk.go ReadChunkHeader/ReadChunk (loops on the remaining suffix with fuel = 1 + its length)"],
+   "assumptions": ["Go int is 64-bit; len(data) < 2^63"],
  }
